@@ -911,6 +911,18 @@ def replay(prop, path):
     if "pipeline" in payload and "script" not in payload:
         return replay_pipeline(prop, path, payload)
     s = payload["script"]
+    if " alias=1" in s:
+        # one sink object attached several times: its record against the distinct-sink run with the ids erased
+        plain = s.replace(" alias=1", "")
+        a = re.sub(r"<dn\d+:", "<dnX:", run_real([plain], variant)[0]).strip()
+        b = run_real([s], variant)[0].strip()
+        print("script                        :", s)
+        print("distinct sinks, ids erased    :", a)
+        print("one sink object, several times:", b)
+        if a != b:
+            print("VIOLATION property=%s replay=%s" % (prop, path))
+            return 1
+        return 0
     m = run_model([s])[0]
     r = run_real([s], variant)[0]
     (vs, cl), = monitor([s], [r])
@@ -1079,6 +1091,33 @@ def c07_extra(spec, scripts, real, variant, tier):
 
 
 PROPS["C07"]["extra_check"] = c07_extra
+
+
+def c12_extra(spec, scripts, real, variant, tier):
+    """the SAME sink object attached several times to a shared source: share must count every attachment (and take
+    one of them away per detach).  Every share script is run again on the crate with all its sink ids being one
+    `Arc` (header alias=1); the object cannot tell its attachments apart, so its record is compared with the model's
+    trace (distinct sinks) with the sink ids erased."""
+    mine = [s for s in scripts if header_op(s) == "share" and "subs=1" in s and "late=1" not in s]
+    alias = [s.replace(" |", " alias=1 |", 1) for s in mine]
+    got = []
+    for part in parallel_map(lambda ch: run_real(ch, variant) if ch else [], chunked(alias, 16)):
+        got += part
+    want = {}
+    for s_, r_ in zip(scripts, real):
+        want[s_] = r_
+    viols, nbad = [], 0
+    erase = lambda t: re.sub(r"<dn\d+:", "<dnX:", t)
+    for s_, a_, g_ in zip(mine, alias, got):
+        if erase(want[s_]) != g_.strip():
+            nbad += 1
+            if nbad <= 3:
+                viols.append((a_, "C12:SameSinkTwice", dict(script=a_, crate_trace_one_sink_object=g_,
+                              crate_trace_distinct_sinks_ids_erased=erase(want[s_]))))
+    return viols, dict(same_sink_object_scripts=len(mine), same_sink_object_mismatches=nbad)
+
+
+PROPS["C12"]["extra_check"] = c12_extra
 
 
 STATIC_PIPES = [
